@@ -100,12 +100,12 @@ def row_cells(table: str, asset: str, row: Dict[str, Any], layout: Dict[str, int
     return cells
 
 
-def build_sheet_grid(asset: str, tables: List[Tuple[str, List[Dict[str, Any]]]], layout: Dict[str, Dict[str, int]], blank_between: int = 1, extra_width: int = 0, first_blank: int = 0, junk_rows: Optional[Dict[int, List[Any]]] = None) -> Tuple[List[List[Any]], Dict[int, int]]:
+def build_sheet_grid(asset: str, tables: List[Tuple[str, List[Dict[str, Any]]]], layout: Dict[str, Dict[str, int]], blank_between: int = 1, extra_width: int = 0, first_blank: int = 0, junk_rows: Optional[Dict[int, List[Any]]] = None, trailing_blank: int = 0) -> Tuple[List[List[Any]], Dict[int, int]]:
     """Grid of cell values for one asset sheet.  `tables` = [(table, raw rows)] in sheet order; every raw row gets its
     1-based sheet row number stored under row['row'] (returned mapping: id(row) -> sheet row)."""
     width = max(max(cols.values()) for cols in layout.values()) + 1 + extra_width
     grid: List[List[Any]] = [[None] * width for _ in range(first_blank)]
-    for table, rows in tables:
+    for table_index, (table, rows) in enumerate(tables):
         grid.append([table.upper()] + [None] * (width - 1))
         header: List[Any] = [None] * width
         for field, col in layout[table].items():
@@ -117,8 +117,11 @@ def build_sheet_grid(asset: str, tables: List[Tuple[str, List[Dict[str, Any]]]],
             row["row"] = len(grid) + 1
             grid.append(row_cells(table, asset, row, layout[table], width, (junk_rows or {}).get(id(row))))
         grid.append(["TABLE END"] + [None] * (width - 1))
-        for _ in range(blank_between):
-            grid.append([None] * width)
+        if table_index < len(tables) - 1:
+            for _ in range(blank_between):
+                grid.append([None] * width)
+    for _ in range(trailing_blank):
+        grid.append([None] * width)
     return grid, {}
 
 
@@ -130,7 +133,7 @@ def write_ods(path: str, sheets: List[Tuple[str, List[List[Any]]]]) -> None:
     for name, grid in sheets:
         n_rows = max(1, len(grid))
         n_cols = max(1, max((len(r) for r in grid), default=1))
-        sheet = ezodf.Sheet(name, size=(n_rows + 1, n_cols))
+        sheet = ezodf.Sheet(name, size=(n_rows, n_cols))
         doc.sheets += sheet
         for r, row in enumerate(grid):
             for c, value in enumerate(row):
